@@ -108,9 +108,10 @@ structure Table where
   extra : Nat
   sizes : List Nat
   rows : List (List Int)        -- n rows of d + extra values
+  scale : Rat := 1              -- op name suffix `@s`: a data value `v` stands for `v·2^-s`
 
 /-- `n d nb s_1 … s_nb` then row-major values -/
-def parseTable (a : List Int) (extra : Nat) : Option Table := do
+def parseTable (a : List Int) (extra : Nat) (sh : Int := 0) : Option Table := do
   match a with
   | n :: d :: nb :: rest =>
     if n ≤ 0 ∨ d < 0 ∨ nb ≤ 0 then none else
@@ -120,7 +121,7 @@ def parseTable (a : List Int) (extra : Nat) : Option Table := do
     if sizes.any (· = 0) ∨ sizes.foldl (· + ·) 0 ≠ n then none else
     let vals := (rest.drop nb).toArray
     let rows := (List.range n).map fun i => (List.range (d + extra)).map fun j => vals[i * (d + extra) + j]!
-    some { n, d, extra, sizes, rows }
+    some { n, d, extra, sizes, rows, scale := pow2 (-sh) }
   | _ => none
 
 /-- cut a list into consecutive batches of the given sizes -/
@@ -129,11 +130,12 @@ def cut {α : Type} : List Nat → List α → List (List α)
   | s :: ss, l => l.take s :: cut ss (l.drop s)
 
 def Table.inputs (t : Table) : List (List Vec) :=
-  cut t.sizes (t.rows.map fun r => (r.take t.d).map fun (v : Int) => (v : Rat))
+  cut t.sizes (t.rows.map fun r => (r.take t.d).map fun (v : Int) => (v : Rat) * t.scale)
 
+/-- regression data: inputs and labels are both scaled -/
 def Table.labeled (t : Table) : List (List (Vec × Vec)) :=
   cut t.sizes (t.rows.map fun r =>
-    ((r.take t.d).map fun (v : Int) => (v : Rat), (r.drop t.d).map fun (v : Int) => (v : Rat)))
+    ((r.take t.d).map fun (v : Int) => (v : Rat) * t.scale, (r.drop t.d).map fun (v : Int) => (v : Rat) * t.scale))
 
 /-- tabulate a matrix once (closures over the model functions would recompute on every access) -/
 def tab2 (n k : Nat) (f : Nat → Nat → Rat) : Array (Array Rat) :=
@@ -144,8 +146,8 @@ def isConstCol (bs : List (List Vec)) (j : Nat) : Bool := colMin bs j = colMax b
 
 /-! ### the ops -/
 
-def opMeanVar (a : List Int) (o : Option Obs) : String :=
-  match parseTable a 0 with
+def opMeanVar (sh : Int) (a : List Int) (o : Option Obs) : String :=
+  match parseTable a 0 sh with
   | none => "bad-op"
   | some t =>
     let bs := t.inputs
@@ -169,10 +171,10 @@ def opMeanVar (a : List Int) (o : Option Obs) : String :=
             v := v.value o.inexact s!"cov[{i},{j}]" (covariance bs i j) gc[i * d + j]!
         return v.line
 
-def opUnitVar (a : List Int) (o : Option Obs) : String :=
+def opUnitVar (sh : Int) (a : List Int) (o : Option Obs) : String :=
   match a with
   | zm :: rest =>
-    match parseTable rest 0 with
+    match parseTable rest 0 sh with
     | none => "bad-op"
     | some t =>
       let bs := t.inputs
@@ -214,8 +216,8 @@ def opUnitVar (a : List Int) (o : Option Obs) : String :=
           return v.line
   | _ => "bad-op"
 
-def opUnitInt (a : List Int) (o : Option Obs) : String :=
-  match parseTable a 0 with
+def opUnitInt (sh : Int) (a : List Int) (o : Option Obs) : String :=
+  match parseTable a 0 sh with
   | none => "bad-op"
   | some t =>
     let bs := t.inputs
@@ -248,12 +250,12 @@ def opUnitInt (a : List Int) (o : Option Obs) : String :=
             v := v.value o.inexact s!"offset[{j}]" (mdl.offset j) go[j]!
         return v.line
 
-def opLinReg (a : List Int) (o : Option Obs) : String :=
+def opLinReg (sh : Int) (a : List Int) (o : Option Obs) : String :=
   match a with
   | lamNum :: lamShift :: k :: rest =>
     if lamNum < 0 ∨ lamShift < 0 ∨ k ≤ 0 then "bad-op" else
     let k := k.toNat
-    match parseTable rest k with
+    match parseTable rest k sh with
     | none => "bad-op"
     | some t =>
       let bs := t.labeled
@@ -307,10 +309,10 @@ def opLinReg (a : List Int) (o : Option Obs) : String :=
 def ratToFloat (q : Rat) : Float := Float.ofInt q.num / Float.ofNat q.den
 
 /-- `whiten` / `zca`: `tNum tShift | table` -/
-def opWhiten (zca : Bool) (a : List Int) (o : Option Obs) : String :=
+def opWhiten (zca : Bool) (sh : Int) (a : List Int) (o : Option Obs) : String :=
   match a with
   | tNum :: tShift :: rest =>
-    match parseTable rest 0 with
+    match parseTable rest 0 sh with
     | none => "bad-op"
     | some t =>
       let bs := t.inputs
@@ -354,10 +356,10 @@ def opWhiten (zca : Bool) (a : List Int) (o : Option Obs) : String :=
   | _ => "bad-op"
 
 /-- `pca whitening alg m | table` -/
-def opPca (a : List Int) (o : Option Obs) : String :=
+def opPca (sh : Int) (a : List Int) (o : Option Obs) : String :=
   match a with
   | wh :: alg :: m :: rest =>
-    match parseTable rest 0 with
+    match parseTable rest 0 sh with
     | none => "bad-op"
     | some t =>
       let bs := t.inputs
@@ -442,16 +444,16 @@ def opPca (a : List Int) (o : Option Obs) : String :=
   | _ => "bad-op"
 
 /-- `lda regNum regShift | table+class` and `wlda regNum regShift | table+class+weight` -/
-def opLda (weighted : Bool) (a : List Int) (o : Option Obs) : String :=
+def opLda (weighted : Bool) (sh : Int) (a : List Int) (o : Option Obs) : String :=
   match a with
   | regNum :: regShift :: rest =>
-    match parseTable rest (if weighted then 2 else 1) with
+    match parseTable rest (if weighted then 2 else 1) sh with
     | none => "bad-op"
     | some t =>
       let d := t.d
       let reg : Rat := regNum * pow2 (-regShift)
       let rowsW : List (Vec × Nat × Rat) := t.rows.map fun r =>
-        ((r.take d).map fun (v : Int) => (v : Rat), (r.getD d 0).toNat, if weighted then ((r.getD (d + 1) 1 : Int) : Rat) else 1)
+        ((r.take d).map fun (v : Int) => (v : Rat) * t.scale, (r.getD d 0).toNat, if weighted then ((r.getD (d + 1) 1 : Int) : Rat) else 1)
       let wbs : WCData := cut t.sizes rowsW
       let cbs : CData := cut t.sizes (rowsW.map fun p => (p.1, p.2.1))
       let classes := (rowsW.foldl (fun m p => max m p.2.1) 0) + 1
@@ -492,14 +494,14 @@ def opLda (weighted : Bool) (a : List Int) (o : Option Obs) : String :=
   | _ => "bad-op"
 
 /-- `fisher whitening dims | table+class`: global mean and offset of FisherLDA -/
-def opFisher (a : List Int) (o : Option Obs) : String :=
+def opFisher (sh : Int) (a : List Int) (o : Option Obs) : String :=
   match a with
   | _wh :: dims :: rest =>
-    match parseTable rest 1 with
+    match parseTable rest 1 sh with
     | none => "bad-op"
     | some t =>
       let d := t.d
-      let rows : List (Vec × Nat) := t.rows.map fun r => ((r.take d).map fun (v : Int) => (v : Rat), (r.getD d 0).toNat)
+      let rows : List (Vec × Nat) := t.rows.map fun r => ((r.take d).map fun (v : Int) => (v : Rat) * t.scale, (r.getD d 0).toNat)
       let cbs : CData := cut t.sizes rows
       let classes := (rows.foldl (fun m p => max m p.2) 0) + 1
       -- default subspace dimension = number of classes, capped by the input dimension (repaired trainer, F-C15-8)
@@ -535,32 +537,51 @@ def opFisher (a : List Int) (o : Option Obs) : String :=
           return v.line
   | _ => "bad-op"
 
-def dispatch (op : String) (a : List Int) (o : Option Obs) : String :=
+def dispatch (op : String) (sh : Int) (a : List Int) (o : Option Obs) : String :=
   match op with
-  | "meanvar" => opMeanVar a o
-  | "unitvar" => opUnitVar a o
-  | "unitint" => opUnitInt a o
-  | "linreg" => opLinReg a o
-  | "whiten" => opWhiten false a o
-  | "zca" => opWhiten true a o
-  | "pca" => opPca a o
-  | "lda" => opLda false a o
-  | "wlda" => opLda true a o
-  | "fisher" => opFisher a o
+  | "meanvar" => opMeanVar sh a o
+  | "unitvar" => opUnitVar sh a o
+  | "unitint" => opUnitInt sh a o
+  | "linreg" => opLinReg sh a o
+  | "whiten" => opWhiten false sh a o
+  | "zca" => opWhiten true sh a o
+  | "pca" => opPca sh a o
+  | "pcat" => opPca sh a o        -- same result through `PCA::train`
+  | "pcac" => opPca sh a o        -- same result through the constructor `PCA(data, whitening)`
+  | "lda" => opLda false sh a o
+  | "wlda" => opLda true sh a o
+  | "fisher" => opFisher sh a o
   | _ => "bad-op"
 
+def toks (s : String) : List String := (s.trimAscii.toString.splitOn " ").filter (· ≠ "")
+
+/-- one op with the observation of the real trainer (or none: print the model's values) -/
+def stepOne (op : String) (obs : Option String) : String :=
+  match toks op with
+  | [] => ""
+  | name :: args =>
+    -- `op@s`: the data values of the table are scaled by `2^-s`
+    let (base, sh) : String × Option Int := match name.splitOn "@" with
+      | [b] => (b, some 0)
+      | [b, s] => (b, s.toInt?)
+      | _ => (name, none)
+    match sh, args.mapM String.toInt? with
+    | some sh, some a => dispatch base sh a (obs.map fun o => parseObs (toks o))
+    | _, _ => "bad-op"
+
+/-- A line is one op or a HISTORY `op ; op ; …` whose steps the harness executed one after the other on the same
+trainer and model objects (observations separated by `;;`).  The trainers are specified as functions of the data
+and the configuration of the call alone (`Props/C15.lean`, section "Objects used more than once"), so every step
+is judged against the model of that step alone: a step whose result depends on the earlier steps FAILs. -/
 def step (line : String) : String :=
   let parts := line.splitOn "||"
-  let toks := ((parts.headD "").trimAscii.toString.splitOn " ").filter (· ≠ "")
-  let obs : Option Obs := match parts with
-    | [_, o] => some (parseObs ((o.trimAscii.toString.splitOn " ").filter (· ≠ "")))
-    | _ => none
-  match toks with
-  | [] => ""
-  | op :: args =>
-    match args.mapM String.toInt? with
-    | none => "bad-op"
-    | some a => dispatch op a obs
+  let ops := ((parts.headD "").splitOn ";").filter fun s => ¬ (toks s).isEmpty
+  match parts with
+  | [_, o] =>
+    let obs := o.splitOn ";;"
+    if ops.length ≠ obs.length then s!"FAIL history of {ops.length} steps with {obs.length} observations"
+    else " ;; ".intercalate ((ops.zip obs).map fun (op, ob) => stepOne op (some ob))
+  | _ => " ;; ".intercalate (ops.map fun op => stepOne op none)
 
 partial def loop (h : IO.FS.Stream) (out : IO.FS.Stream) : IO Unit := do
   let line ← h.getLine
